@@ -133,8 +133,8 @@ class Check:
             sub = gen.Corpus.__new__(gen.Corpus)
             sub.__dict__.update(self.corp.__dict__)
             sub.constexpr_entries = [e for e in self.corp.constexpr_entries if e.get("n", 0) in c["sweep_n"]]
-            self.sweep = gen.c10_sweep_specs(sub, counts)
-            specs = list(self.sweep) + gen.c10_directed_specs(self.corp, self.hash_seeds)
+            self.sweep = gen.c10_sweep_specs(sub, counts, full=(self.tier == "thorough"))
+            specs = gen.c10_directed_specs(self.corp, self.hash_seeds) + list(self.sweep)
             if c["typing_all"]:
                 specs += gen.c10_typing_all_specs(self.corp)
             specs += [gen.c10_random_spec(self.seed, k, self.corp, self.hash_seeds) for k in range(c["random"])]
@@ -436,7 +436,9 @@ class Check:
             fired = sum(1 for s, r in sweep_runs if not r.get("harness_error") and any(f != "ok" for f in (r.get("faults") or {})))
             cov["single_fault_sweep"] = {"enumerated": len(getattr(self, "sweep", [])), "executed": len(sweep_runs),
                                          "fault_fired_in": fired,
-                                         "exhaustive_over": "constexpr corpus entries x helper-invocation index x %d fault points" % len(gen.FAULT_POINTS),
+                                         "exhaustive_over": ("every constexpr corpus entry x helper-invocation index x %d fault points" % len(gen.FAULT_POINTS)) if self.tier == "thorough"
+                                         else ("%d core constexpr entries x helper-invocation index x %d fault points; the other entries x %d points (one per fault kind)"
+                                               % (len(gen.SWEEP_CORE), len(gen.FAULT_POINTS), len(gen.SWEEP_REDUCED_KINDS))),
                                          "complete": len(sweep_runs) == len(getattr(self, "sweep", []))}
         return {
             "property_id": prop, "tier": self.tier, "seed": self.seed, "level": LEVEL[prop], "coverage": cov,
